@@ -63,6 +63,85 @@ impl ShortMessageFactory for ForeignBytes {
     }
 }
 
+/// A foreign implementor that relies on the documented contract of `from_bytes_unchecked`
+/// (the status byte is valid): an event struct around a `StructuredShortMessage`.
+#[derive(Copy, Clone, PartialEq, Eq, Debug)]
+pub struct ForeignEvent {
+    pub msg: StructuredShortMessage,
+    pub frame: u32,
+}
+
+impl ShortMessage for ForeignEvent {
+    fn status_byte(&self) -> u8 {
+        self.msg.status_byte()
+    }
+    fn data_byte_1(&self) -> U7 {
+        self.msg.data_byte_1()
+    }
+    fn data_byte_2(&self) -> U7 {
+        self.msg.data_byte_2()
+    }
+}
+
+impl ShortMessageFactory for ForeignEvent {
+    unsafe fn from_bytes_unchecked(bytes: (u8, U7, U7)) -> Self {
+        ForeignEvent {
+            msg: StructuredShortMessage::from_bytes_unchecked(bytes),
+            frame: 3,
+        }
+    }
+}
+
+/// Another one relying on that contract: stores only the low seven bits of the status byte
+/// (the top bit of a valid status byte is always set).
+#[derive(Copy, Clone, PartialEq, Eq, Debug)]
+pub struct ForeignPacked {
+    pub status_low7: u8,
+    pub d1: U7,
+    pub d2: U7,
+}
+
+impl ShortMessage for ForeignPacked {
+    fn status_byte(&self) -> u8 {
+        0x80 | self.status_low7
+    }
+    fn data_byte_1(&self) -> U7 {
+        self.d1
+    }
+    fn data_byte_2(&self) -> U7 {
+        self.d2
+    }
+}
+
+impl ShortMessageFactory for ForeignPacked {
+    unsafe fn from_bytes_unchecked(bytes: (u8, U7, U7)) -> Self {
+        ForeignPacked {
+            status_low7: bytes.0 & 0x7F,
+            d1: bytes.1,
+            d2: bytes.2,
+        }
+    }
+}
+
+impl Observe for ForeignEvent {
+    fn observe(&self) {
+        self.msg.observe();
+    }
+    fn describe(&self) -> String {
+        format!("{:?}", self)
+    }
+}
+
+impl Observe for ForeignPacked {
+    fn observe(&self) {
+        self.d1.observe();
+        self.d2.observe();
+    }
+    fn describe(&self) -> String {
+        format!("{:?}", self)
+    }
+}
+
 // ------------------------------------------------------------- range observer impls
 
 macro_rules! observe_newtype {
